@@ -459,6 +459,7 @@ func cmdCheck(args []string) int {
 	sort.SliceStable(failures, func(i, j int) bool { return failures[i].Obligation < failures[j].Obligation })
 	seenKnown := map[string]bool{}
 	seenViol := map[string]bool{}
+	var undecided []string
 	replayDir := filepath.Join(*verif, "replays", *prop)
 	for _, f := range failures {
 		matched := false
@@ -489,6 +490,17 @@ func cmdCheck(args []string) int {
 			continue
 		}
 		seenViol[key] = true
+		if f.Backend == "attach" && f.Obligation != "attach/load" {
+			// The contract no longer fits the shape of the function (a loop without invariant, a name the
+			// contract mentions that is gone, a construct outside the supported subset): the deductive
+			// route cannot decide this function on this tree. That is undecided, not a refutation: there
+			// is no solver verdict to attach. The bounded clauses and witness runs of the property still
+			// ran against the changed code and report on their own.
+			line := fmt.Sprintf("UNDECIDED: property=%s %s — %s", *prop, f.Obligation, truncate(strings.ReplaceAll(f.Detail, "\n", " | "), 300))
+			fmt.Println(line)
+			undecided = append(undecided, line)
+			continue
+		}
 		violations++
 		os.MkdirAll(replayDir, 0755)
 		rp := filepath.Join(replayDir, sanitize(f.Obligation+"_"+f.Class)+".json")
@@ -569,6 +581,7 @@ func cmdCheck(args []string) int {
 			"bounded":      bounded,
 			"bounded_cmds": bcmds,
 			"known_findings_printed": knownPrinted,
+			"undecided_contract_drift": undecided,
 			"witness_runs":           wreports,
 			"solver_timeout_s": secs,
 		}
@@ -587,7 +600,7 @@ func cmdCheck(args []string) int {
 		os.MkdirAll(filepath.Join(*verif, "evidence"), 0755)
 		os.WriteFile(filepath.Join(*verif, "evidence", *prop+".json"), data, 0644)
 	}
-	fmt.Printf("SUMMARY property=%s tier=%s obligations=%d discharged=%d bounded_evaluations=%d violations=%d known=%d wall=%.1fs\n", *prop, *tier, nObl, nDis, sumEvals(bresults), violations, len(knownPrinted), time.Since(t0).Seconds())
+	fmt.Printf("SUMMARY property=%s tier=%s obligations=%d discharged=%d bounded_evaluations=%d violations=%d known=%d undecided=%d wall=%.1fs\n", *prop, *tier, nObl, nDis, sumEvals(bresults), violations, len(knownPrinted), len(undecided), time.Since(t0).Seconds())
 	if violations > 0 {
 		return 1
 	}
